@@ -57,10 +57,10 @@ class OS(object):
                 # executable_stack = s.p_flags & PF_X
                 pass
         # init task state registers:
-        p.state[cpu.pc] = cpu.cst(p.bin.entrypoints[0], 32)
-        p.state[cpu.npc] = p.state(cpu.pc+4)
         for r in cpu.registers:
             p.state[r] = cpu.cst(0, 32)
+        p.state[cpu.pc] = cpu.cst(p.bin.entrypoints[0], 32)
+        p.state[cpu.npc] = p.state(cpu.pc+4)
         # create the stack space:
         if self.ASLR:
             p.state.mmap.newzone(p.cpu.sp)
